@@ -7,6 +7,7 @@ use serde_json::{json, Value};
 
 pub mod dewey;
 pub mod messages;
+pub mod values;
 pub mod digest;
 pub mod distinfo;
 pub mod names;
@@ -74,6 +75,7 @@ pub fn run(st: &mut State, op: &str, input: &Value) -> Option<Out> {
         "plist" => Some(plist::plist(input)),
         "plistline" => Some(plist::plistline(input)),
         "errmsg" => Some(messages::errmsg(input)),
+        "values" => Some(values::values(input)),
         "digest" => Some(digest::digest(input)),
         "algname" => Some(digest::algname(input)),
         "hashvec" => Some(digest::hashvec(input)),
